@@ -323,7 +323,7 @@ def run(ctx):
         kw = {}
         if isinstance(sim, int):
             kw = dict(simulate=sim, depth=D + 1, seed=ctx.seed + 3)
-        r = ctx.tlc("TrajOps", "TrajOps_D%d_%s.cfg" % (D, "sim" if isinstance(sim, int) else "bfs"), workers=16 if not kw else 1,
+        r = ctx.tlc("TrajOps", "TrajOps_D%d_%s.cfg" % (D, "sim" if isinstance(sim, int) else "bfs"), workers=1 if (kw or (view and not ctx.thorough)) else 16,
                     cfg_text=CFG % dict(F=F, A=A, D=D, fs="TRUE", fa="TRUE", view="VIEW View" if view else "",
                                         emit="EmitLast" if kw else "Emit"), timeout=1500, **kw)
         got = r.tr
